@@ -325,7 +325,7 @@ impl BlockT { pub fn statistics(&self) -> (r: &BlockStatsT) ensures *r == self.s
 pub open spec fn corrupt_kind_header(k: ErrorKind) -> bool { k == ErrorKind::Parse || k == ErrorKind::MagicMismatch || k == ErrorKind::ChecksumMismatch || k == ErrorKind::OutOfRange }
 pub open spec fn corrupt_kind_entry(k: ErrorKind) -> bool { k == ErrorKind::MagicMismatch || k == ErrorKind::ChecksumMismatch || k == ErrorKind::OutOfRange }
 
-//@region foyer-storage/src/engine/block/engine.rs :: impl~^impl<K, V, P> BlockEngine<K, V, P> where/fn load name=engine_load_decode start=/let header = / stmts=99 rules=drop-tracing,drop-metrics sub=@&buf\[\.\.EntryHeader::serialized_len\(\)\]@verif_head(&buf, EntryHeader::serialized_len())@ sub=@&buf\[EntryHeader::serialized_len\(\)\.\.\]@verif_tail(&buf, EntryHeader::serialized_len())@ sub=@EntryDeserializer::deserialize::<K, V>\(@EntryDeserializer::deserialize(@
+//@region foyer-storage/src/engine/block/engine.rs :: impl~^impl<K, V, P> BlockEngine<K, V, P> where/fn load name=engine_load_decode start=/let header = / stmts=99 rules=drop-tracing,drop-metrics,assert-eq sub=@&buf\[\.\.EntryHeader::serialized_len\(\)\]@verif_head(&buf, EntryHeader::serialized_len())@ sub=@&buf\[EntryHeader::serialized_len\(\)\.\.\]@verif_tail(&buf, EntryHeader::serialized_len())@ sub=@EntryDeserializer::deserialize::<K, V>\(@EntryDeserializer::deserialize(@
 //@head
 fn engine_load_decode(buf: BufT, hash: u64, indexer: &mut IndexerT, block: &BlockT, metrics: &LoadMetricsT) -> (r: Result<Load>)
     requires buf.bytes@.len() >= 36, // the read buffer is align_up(PAGE, addr.len) >= one page
